@@ -162,6 +162,10 @@ func c14World(tp *Tape, env *Env) (*Plan, *Violation) {
 			continue
 		}
 		l, f := genMarkupLineAt(tp, fmt.Sprintf("M%d", i), true, tp.Chance(40, "idlast"))
+		if tp.Chance(20, "leadingws") {
+			// handed to the parser directly a line may begin with white space
+			l = []string{" ", "  ", "\t", " \t "}[tp.Int(0, 3, "leadingwskind")] + l
+		}
 		lines = append(lines, l)
 		if f {
 			nfail++
